@@ -267,6 +267,61 @@ def run(tier: str, replay=None) -> int:
                 if bad:
                     viol.append({"what": f"after loading file1 then file2 the behaviours of {bad[:3]} are not those of file2's lines", "file1": f1, "file2": f2,
                                  "real": {k: r2[1].get(k) for k in bad[:3]}, "expected": {k: md[k] for k in bad[:3]}})
+        # ---- 3. the loader on generated FILES (every line kind the split functions see above, through load_insn_behavior) ----
+        file_stats = {"files": 0, "loaded_by_both": 0, "rejected_by_both": 0}
+
+        def load_tie(lines, label):
+            nonlocal evals
+            file_stats["files"] += 1
+            r = real_load(lines, tmpdir, clear=True)
+            m = parse_sx(drv.run([sx(["load-behaviours"] + [Q(l) for l in lines])])[0])
+            evals += 1
+            if (r[0] == "ok") != (m != "raise"):
+                viol.append({"what": f"{label}: real load {r[0]} vs model {'raise' if m == 'raise' else 'ok'} (malformed lines must be rejected, not skipped)",
+                             "lines": len(lines), "first_lines": lines[:3], "last_lines": lines[-2:]})
+            elif r[0] != "ok":
+                file_stats["rejected_by_both"] += 1
+            elif r[0] == "ok":
+                file_stats["loaded_by_both"] += 1
+                md = {e[0].s: [p.s for p in e[1:]] for e in m}
+                if r[1] != md:
+                    bad = sorted(k for k in set(r[1]) | set(md) if r[1].get(k) != md.get(k))
+                    viol.append({"what": f"{label}: load_insn_behavior differs from the model on {len(bad)} of {len(md)} names, e.g. {bad[:3]}",
+                                 "real": {k: r[1].get(k) for k in bad[:3]}, "expected": {k: md.get(k) for k in bad[:3]},
+                                 "lines": len(lines), "example_lines": [l for l in lines if any(f"insn({k}," in l for k in bad[:3])][:3]})
+
+        def gen_file(n, malformed_tail):
+            out = []
+            for i in range(n):
+                k = rng.random()
+                name = gen_name(rng) + f"_{i}"
+                if k < 0.5:
+                    out.append(f"insn({name}, {gen_body(rng).replace(M, '') or 'x'})\n")
+                elif k < 0.85:  # compounds: white space / nothing between the brace and the first marker, around the markers, at the end
+                    ws = rng.choice(["", "", " ", "\t", "  ", " \t "])
+                    ws2 = rng.choice(["", " ", "\t"]) if rng.random() < 0.02 else ""   # (white space there makes the line malformed)
+                    inner = gen_body(rng, rng.randint(1, 5)).replace(M, "") or "a;"
+                    rest = gen_body(rng, rng.randint(0, 5)).replace(M, "")
+                    out.append(f"insn({name}, {{{ws}{M}{ws2}{{{inner}}}{ws2}{M}{rest}}})\n")
+                elif k < 0.95:
+                    out.append(rng.choice(["#line 3\n", "#\n", "# insn(a, b)\n"]))
+                else:
+                    out.append(f"insn({name}, {{ RdV = fn(a, (b)); }})\n")
+            if malformed_tail:
+                out.append(rng.choice(["garbage\n", "insn(x,y)\n", "insn(x y)\n"]))
+            return out
+
+        for rd in range(12 if tier == "quick" else 120):
+            load_tie(gen_file(rng.randint(1, 120), rd % 3 == 0), f"generated file {rd}")
+        # files larger than the bundled one (979 KB): 1.3 MB of short lines, 2.5 MB with one very long body first; the last
+        # line of every second one is malformed
+        big = [f"insn(N{i}_{gen_name(rng)}, {{ RdV = {i}; {gen_body(rng, 12).replace(M, '')} }})\n" for i in range(32000)]
+        while sum(map(len, big)) < 1_300_000:
+            big += [f"insn(M{len(big)}_{i}, {{ RdV = {i}; }})\n" for i in range(2000)]
+        load_tie(big, "generated file of 1.3 MB")
+        load_tie(big + ["garbage\n"], "generated file of 1.3 MB with a malformed last line")
+        long_first = [f"insn(LONG, {{ {'RdV = RsV + 1; ' * 90000}}})\n"] + big[:20000] + ["insn(x,y)\n"]
+        load_tie(long_first, "generated file of 2.5 MB whose first body is 1.3 MB long, malformed last line")
     finally:
         shutil.rmtree(tmpdir, ignore_errors=True)
 
@@ -291,8 +346,8 @@ def run(tier: str, replay=None) -> int:
             res.violation(v)
     res.coverage.update({
         "evaluations": evals, "distinct_nontrivial": len(distinct),
-        "rule": "every bundled line and compound (exhaustive) + generated lines: structured (must be recovered exactly), decorated, token soup; compounds with empty/non-empty prefix and soup; two-step loader histories. distinct = distinct input strings",
+        "rule": "every bundled line and compound (exhaustive) + generated lines: structured (must be recovered exactly), decorated, token soup; compounds with empty/non-empty prefix and soup; two-step loader histories; the loader on generated files (plain lines, compounds with white space around the markers, comment lines, malformed tails) and on files larger than 1 MB. distinct = distinct input strings",
         "exhaustive": True, "bundled_evaluations": n_bundled, "bundled_lines": len(body_lines), "bundled_compounds": len(compounds),
-        "prefix_loss_cases_seen": known_hits, "prefix_cases_split_losslessly_by_the_code": repaired, "violations_total": len(viol), "samples": samples,
+        "prefix_loss_cases_seen": known_hits, "prefix_cases_split_losslessly_by_the_code": repaired, "violations_total": len(viol), "samples": samples, "loader_files": file_stats,
     })
     return res.finish(TB, "cd lean && lake build RzilVerif.Props.C19")
